@@ -35,6 +35,7 @@ from ttconv.filters.isd_filter import ISDFilter
 from ttconv.filters.isd.default_style_properties import DefaultStylePropertyValuesISDFilter
 from ttconv.filters.isd.merge_paragraphs import ParagraphsMergingISDFilter
 from ttconv.filters.isd.merge_regions import RegionsMergingISDFilter
+from ttconv.filters.isd.remove_invisible_content import InvisibleContentISDFilter
 from ttconv.filters.isd.supported_style_properties import SupportedStylePropertiesISDFilter
 from ttconv.isd import ISD
 from ttconv.srt.paragraph import SrtParagraph
@@ -48,6 +49,7 @@ class SrtContext:
   """SRT writer context"""
 
   filters: List[ISDFilter] = (
+    InvisibleContentISDFilter(),
     RegionsMergingISDFilter(),
     ParagraphsMergingISDFilter(),
     SupportedStylePropertiesISDFilter({
